@@ -196,6 +196,7 @@ def run(ctx):
         cases.append(("ShiftOut", ("ShiftOut", n, t), (n, t)))
         cases.append(("Subst", ("Subst", ps, t), (ps, t)))
         cases.append(("FoldId", ("FoldId", t), t))
+        cases.append(("FoldId", ("FoldIdT", t), t))     # the infallible TypeFolder's defaults
         cases.append(("ShiftInW", ("ShiftIn", n, w), (n, w)))       # cut-off 1 through the wrapper
         cases.append(("BindersSubst", ("BindersSubst", ks, t, ps), (ks, t, ps)))
     # Substitution::apply (SubstFolder): terms whose free variables all belong to the substituted binder
